@@ -76,7 +76,7 @@ pub fn patterns(maxlen: usize) -> Vec<String> {
     all
 }
 pub const EXTRA: &[&str] = &[
-    "W", "xW", "Wx", "W W", "xW\nW", "x\nx\n", "x\nx", "x x", "xx\r\nx", "x.x", "x\rx\n", "\n\nx", "xx x", "x\n\nx\n", "xxx", "xxxx", "xx xx", "x\nx\nx\n", "x x x", "x\r\n\r\nx",
+    "W", "xW", "Wx", "W W", "xW\nW", "xx xxx", "x\n\nxx\n", "xx.xxx", "x\nx\n", "x\nx", "x x", "xx\r\nx", "x.x", "x\rx\n", "\n\nx", "xx x", "x\n\nx\n", "xxx", "xxxx", "xx xx", "x\nx\nx\n", "x x x", "x\r\n\r\nx",
 ];
 
 pub fn make_diff<'a>(s: &Shape, ot: &'a SymTxt, nt: &'a SymTxt) -> TextDiff<'a, 'a, 'a, SymTxt> {
@@ -443,8 +443,13 @@ impl Prop for Text {
             }
         }
         let mut v = vec![];
+        let ords = |p: &str| p.chars().filter(|c| *c == 'x' || *c == 'W').count();
         for o in &pats {
             for n in &pats {
+                // at most 7 symbolic characters in both texts together
+                if ords(o) + ords(n) > 7 {
+                    continue;
+                }
                 for tok in TOKS {
                     for alg in ALGS {
                         // the long extras only against each other and the short ones in the quick tier
